@@ -31,7 +31,7 @@ ASSUMPTIONS = [
 ]
 DECIDING = ['tcpcl.session:Messenger.recv_message', 'tcpcl.session:ContactHandler.recv_xfer_data', 'tcpcl.session:ContactHandler.recv_xfer_ack',
             'tcpcl.session:ContactHandler.recv_xfer_refuse', 'tcpcl.session:Messenger.send_reject']
-REQUIRED_OBS = ['sequences', 'out_of_place_injected', 'reactions_seen', 'own_transfers_completed', 'deliveries_checked']
+REQUIRED_OBS = ['sequences', 'split_sequences', 'reused_done_id_histories', 'out_of_place_injected', 'reactions_seen', 'own_transfers_completed', 'deliveries_checked']
 
 STATES = ['pre-contact', 'pre-init', 'idle', 'own-unacked', 'receiving', 'terminating']
 OWN_LEN = 25
@@ -239,7 +239,13 @@ class Peer(object):
         before = self.reactions()
         was_closed = self.closed()
         was_term = self.terminating()
-        self.write(msg['raw'] if msg['type'] == 'RAW' else tw.encode(msg))
+        octets = msg['raw'] if msg['type'] == 'RAW' else tw.encode(msg)
+        if getattr(self, 'split', False) and len(octets) > 1 and msg['type'] not in ('RAW', 'contact'):
+            self.write(octets[:1])
+            self.sim.settle(50000)
+            self.write(octets[1:])
+        else:
+            self.write(octets)
         # provenance model: only START..END runs of one id are deliverable
         if msg['type'] == 'XFER_SEGMENT' and self.sent_sess_init and not was_closed:
             if msg['flags'] & tw.FLAG_START:
@@ -290,8 +296,68 @@ class Peer(object):
         self.settle()
 
 
-def run_sequence(role, state, names, obs, modulate=False):
+def run_reused_done_id(role, with_open, obs):
+    ''' The peer completes transfer 7 (not popped yet), optionally begins transfer 8, then sends segments naming 7 again (a START,
+    then a non-START END), then finishes 8.  Out of place both; what is delivered must be exactly the honest runs. '''
+    peer = Peer(role, 'idle')
+    problems = []
+
+    def seg(flags, xid, data, total=None):
+        msg = dict(type='XFER_SEGMENT', flags=flags, transfer_id=xid, data=data)
+        if flags & tw.FLAG_START:
+            msg['ext'] = [tw.transfer_length_ext(total)]
+        peer.write(tw.encode(msg))
+        peer.settle()
+
+    seg(tw.FLAG_START, 7, b'AAAA', 8)
+    seg(tw.FLAG_END, 7, b'BBBB')
+    want = {'7': b'AAAABBBB'}
+    if with_open:
+        seg(tw.FLAG_START, 8, b'CCCC', 8)
+    before = peer.reactions()
+    seg(tw.FLAG_START, 7, b'XXXX', 8)
+    seg(tw.FLAG_END, 7, b'YYYY')
+    obs['out_of_place_injected'] += 2
+    if peer.reactions() > before or peer.closed():
+        obs['reactions_seen'] += 1
+    if with_open and not (peer.closed() or peer.terminating()):
+        seg(tw.FLAG_END, 8, b'DDDD')
+        want['8'] = b'CCCCDDDD'
+    what = 'segments naming the completed, not yet popped transfer 7 again%s (%s endpoint)' % (' while transfer 8 is open' if with_open else '', role)
+    errs = peer.sim.world.callback_errors
+    if errs:
+        return [('raised', 'after %s: callback %s raised %s: %s' % (what, errs[0].source, errs[0].exc_type, str(errs[0].exc)[:60]),
+                 dict(msg='reused-done-id', exc_type=errs[0].exc_type))], True
+    got = {}
+    announced = [str(ev['args'][0]) for ev in peer.sim.hist.signals('recv_bundle_finished')]
+    try:
+        if not peer.closed():
+            for tid in [str(x) for x in peer.end.call('recv_bundle_get_queue')]:
+                got[tid] = bytes(peer.end.call('recv_bundle_pop_data', tid))
+        else:
+            for tid, item in list(peer.end.hdl._rx_map.items()):
+                item.file.seek(0)
+                got[str(tid)] = bytes(item.file.read())
+    except Exception as err:  # pylint: disable=broad-except
+        problems.append(('raised', 'draining the receive queue after %s failed: %s: %s' % (what, type(err).__name__, err), {}))
+    obs['deliveries_checked'] += len(got)
+    closed_early = (peer.closed() or peer.terminating()) and '8' not in want
+    for tid, data in got.items():
+        if want.get(tid) != data:
+            problems.append(('mixed-data', 'after %s the receive queue holds %r for transfer %s, the honest run carried %r' % (what, data[:12], tid, want.get(tid)), {}))
+    if '7' not in got:
+        problems.append(('mixed-data', 'after %s the completed transfer 7 is no longer in the receive queue' % what, {}))
+    if '8' in want and '8' not in got and not (peer.closed() or peer.terminating()):
+        problems.append(('mixed-data', 'after %s the honest transfer 8 was not delivered although the session went on' % what, {}))
+    if announced.count('7') > 1:
+        problems.append(('mixed-data', 'after %s transfer 7 was announced as received %d times' % (what, announced.count('7')), {}))
+    obs['reused_done_id_histories'] = obs.get('reused_done_id_histories', 0) + 1
+    return problems, True
+
+
+def run_sequence(role, state, names, obs, modulate=False, split=False):
     peer = Peer(role, state, modulate=modulate)
+    peer.split = split
     problems = []
     # already out of place things must not have happened while reaching the state
     if peer.sim.world.callback_errors:
@@ -649,6 +715,8 @@ def run_case(case):
         for extra in (1, 2, 3):
             for flags in (tw.FLAG_END, tw.FLAG_START | tw.FLAG_END, 0, tw.FLAG_START):
                 items.append((case['role'], 'earlyack:%d:%d' % (extra, flags), []))
+        for with_open in (0, 1):
+            items.append((case['role'], 'reuseddone:%d' % with_open, []))
     if case['kind'] == 'givenup':
         for extra in (0, 1, 2, 3):
             for probe in (['refuse'], ['ack'], ['ackstart'], ['ackend'], ['ack', 'refuse', 'refuse']):
@@ -657,12 +725,20 @@ def run_case(case):
         if state.startswith('partialack:'):
             problems, any_oop = run_partial_ack(role, int(state.split(':')[1]), obs, steps=int(state.split(':')[2]))
             obs['partial_ack_histories'] = obs.get('partial_ack_histories', 0) + (1 if any_oop else 0)
+        elif state.startswith('reuseddone:'):
+            problems, any_oop = run_reused_done_id(role, bool(int(state.split(':')[1])), obs)
         elif state.startswith('earlyack:'):
             problems, any_oop = run_early_ack(role, int(state.split(':')[1]), int(state.split(':')[2]), obs)
         elif state.startswith('givenup:'):
             problems, any_oop = run_givenup(role, state.split(':')[1], int(state.split(':')[2]), seq, obs)
         else:
             problems, any_oop = run_sequence(role, state, seq, obs, modulate=modulate)
+            import zlib
+            if not problems and zlib.crc32(repr((role, state, seq)).encode()) % 4 == 0:
+                # the same sequence with every message written in two pieces (type octet, then the rest): the reaction obligations are the same
+                problems, _oop = run_sequence(role, state, seq, obs, modulate=modulate, split=True)
+                problems = [(kind, '[each message written as type octet + rest] ' + text, extra) for (kind, text, extra) in problems]
+                obs['split_sequences'] = obs.get('split_sequences', 0) + 1
         obs['sequences'] += 1
         if any_oop:
             classes.add('%s|%s|%s|%s' % (role, state, ','.join(seq), modulate))
